@@ -26,6 +26,7 @@ TYPE = (r"(?:(?:const|unsigned|signed|static|register)\s+)*(?:struct\s+\w+|u?int
         r"(?:\s+(?:const|long|int))*")
 
 CANON = {
+    "bignat_extra": ['mant', 'n', 'oldn', 'newn', 'newcap', 'mem'],
     "bignat_append": ['mant', 'dig'],
     "bignat_muladd": ['mant', 'factor', 'term', 'i', 'carry'],
     "bignat_div": ['mant', 'divisor', 'i', 'quotient', 'remainder', 'dividend'],
@@ -318,6 +319,15 @@ def extract(tree):
         raise ExtractError("strtod.c: the two products in bignat_muladd / bignat_div are evaluated in different widths")
     c["mulBits"], c["divMulBits"] = mw.pop(), dw.pop()
     c["top53Bits"] = width(_need(r"(\w+)\s+top53\s*;", ex, "bignat_extract: top53 declaration").group(1), "top53")
+    # bignat_extra: the signed int32_t arithmetic `newn = oldn + n`, `newcap = 2 * newn` (Strtod/Int32.lean proves both in range)
+    sx = csrc.func_body(src, "bignat_extra")
+    m = _need(r"^\{\s*int32_t\s+oldn\s*=\s*mant->n\s*;\s*int32_t\s+newn\s*=\s*oldn\s*\+\s*n\s*;"
+              r"\s*if\s*\(\s*mant->cap\s*<\s*newn\s*\)\s*\{\s*int32_t\s+newcap\s*=\s*(\w+)\s*\*\s*newn\s*;"
+              r"\s*uint32_t\s*\*\s*mem\s*=\s*janet_realloc\s*\(\s*mant->digits\s*,\s*\(size_t\)\s*newcap\s*\*\s*sizeof\s*\(uint32_t\)\s*\)\s*;",
+              sx, "bignat_extra: newn = oldn + n; newcap = K * newn; realloc((size_t) newcap * sizeof(uint32_t))")
+    c["capFactor"] = csrc.cint(m.group(1))
+    _need(r"mant->cap\s*=\s*newcap\s*;\s*mant->digits\s*=\s*mem\s*;\s*\}\s*mant->n\s*=\s*newn\s*;\s*return\s+mant->digits\s*\+\s*oldn\s*;\s*\}\s*$",
+          sx, "bignat_extra: tail")
     sa = csrc.func_body(src, "bignat_append")
     _need(r"bignat_extra\s*\(\s*mant\s*,\s*1\s*\)\s*\[\s*0\s*\]\s*=\s*dig\s*;", sa, "bignat_append")
     # --- printing
@@ -360,7 +370,7 @@ def render(tree):
     out = [csrc.lean_header("src/core/strtod.c, src/core/pp.c, src/include/janet.h"), "namespace JanetModel.Gen.Strtod\n"]
     out.append("/-- `digit_lookup[128]` -/")
     out.append("abbrev digitLookup : Array Nat := #[" + ", ".join(str(v) for v in tab) + "]\n")
-    for k in ("nbit", "bigBase", "window", "mantBits", "mantMax", "approxPerDigit", "approxBias", "shamtBase", "shamtDiv",
+    for k in ("nbit", "bigBase", "window", "mantBits", "mantMax", "approxPerDigit", "approxBias", "shamtBase", "shamtDiv", "capFactor",
               "lenLimit", "eeLimit", "eeSat", "intLenLimit", "u64Max", "i64Max", "printDigits",
               "digitBits", "factorBits", "carryBits", "quotBits", "dividendBits", "top53Bits", "mulBits", "divMulBits", "divisorBits",
               "intMaxDouble", "intMinDoubleAbs", "fixedPrec", "dblDig"):
